@@ -58,6 +58,16 @@ def mag_class(tok):
     return k + "<=2^24"
 
 
+def lax_link(a, b):
+    """class of one refuted `a =~ b` link whose cause lies in the dispatch of the LEFT operand's kind on
+    the RIGHT operand's kind, whatever the magnitudes (and, in a chain, whatever the middle value):
+    BigFloat.LaxEqual switches over the operand kinds and has no case for UInt, so `<BigFloat> =~ <UInt>`
+    is false for every pair of values.  None = no such class: the caller keys by operand classes."""
+    if kind(a) == "b" and kind(b) == "u":
+        return "b=~u"
+    return None
+
+
 FIELDS = ("eq", "lax", "seq", "lt", "le", "gt", "ge", "cmp", "ha", "hb")
 
 
@@ -85,7 +95,9 @@ def pair_oracle(a, b, o, ob):
         if o["eq"] != ob["eq"]:
             yield "eq-sym:" + "/".join(sorted((ka, kb))), "a == b is %s but b == a is %s" % (o["eq"], ob["eq"])
         if o["lax"] != ob["lax"] and "u" not in (o["lax"], ob["lax"]):
-            yield "lax-sym:" + "/".join(sorted((ka, kb))), "a =~ b is %s but b =~ a is %s" % (o["lax"], ob["lax"])
+            # the false direction is the refuted link
+            link = lax_link(a, b) if o["lax"] == "f" else lax_link(b, a)
+            yield "lax-sym:" + (link or "/".join(sorted((ka, kb)))), "a =~ b is %s but b =~ a is %s" % (o["lax"], ob["lax"])
     # coherence of the ordering operators on non-NaN numbers
     if kind(a) in NUM and kind(b) in NUM and not is_nan(a) and not is_nan(b):
         c = o["cmp"]
@@ -118,7 +130,7 @@ def triple_oracle(a, b, c, ab, bc, ac):
         return
     tag = "%s/%s/%s" % (mag_class(a), mag_class(b), mag_class(c))
     if ab["lax"] == "t" and bc["lax"] == "t" and ac["lax"] != "t":
-        yield "lax-trans:" + tag, "a =~ b and b =~ c but a =~ c is %s" % ac["lax"]
+        yield "lax-trans:" + (lax_link(a, c) or tag), "a =~ b and b =~ c but a =~ c is %s" % ac["lax"]
     if ab["eq"] == "t" and bc["eq"] == "t" and ac["eq"] != "t":
         yield "eq-trans:" + tag, "a == b, b == c but not a == c"
     for f, g in (("le", "le"), ("lt", "lt"), ("ge", "ge"), ("gt", "gt"), ("le", "lt"), ("lt", "le")):
@@ -180,6 +192,7 @@ def run_stream(ctx, stream, h, m, n, extra, rule, corpus=None, with_model=True):
     dist = {}
     mism = 0
     oracle_fail = 0
+    perkey = {}
     seen_pairs = {}
     for i in ids:
         inp = inputs[i]
@@ -203,7 +216,7 @@ def run_stream(ctx, stream, h, m, n, extra, rule, corpus=None, with_model=True):
                 e2 = model_to_obs(e, xx)
                 if not agree(ob, e2):
                     mism += 1
-                    if mism <= 300:
+                    if True:
                         ow, ew = ob.split(), e2.split()
                         names = [n_ for _ in range(3) for n_ in FIELDS + ("|",)]
                         bad = [names[j] for j in range(min(len(ow), len(ew))) if ew[j] != "?" and ew[j] != ow[j]]
@@ -217,8 +230,10 @@ def run_stream(ctx, stream, h, m, n, extra, rule, corpus=None, with_model=True):
                             key = "model:hash:" + mag_class(toks[pr[1]])
                         else:
                             key = "model:%s:%s/%s" % (fld, mag_class(toks[pr[0]]), mag_class(toks[pr[1]]))
-                        ctx.fail(key, "%s: implementation [%s], model [%s]" % (inp, ob, e2), stream=stream, case=inp,
-                                 impl=ob, model=e2, oracle="implementation differs from the proved model (fields: %s)" % ",".join(bad[:6]))
+                        perkey[key] = perkey.get(key, 0) + 1
+                        if perkey[key] <= 10:
+                            ctx.fail(key, "%s: implementation [%s], model [%s]" % (inp, ob, e2), stream=stream, case=inp,
+                                     impl=ob, model=e2, oracle="implementation differs from the proved model (fields: %s)" % ",".join(bad[:6]))
         # oracle (2): the property on the implementation's own outputs
         fails = []
         if f[0] == "P":
@@ -233,7 +248,8 @@ def run_stream(ctx, stream, h, m, n, extra, rule, corpus=None, with_model=True):
             fails += list(triple_oracle(a, b, c, ab, bc, ac))
         for key, msg in fails:
             oracle_fail += 1
-            if oracle_fail <= 300:
+            perkey[key] = perkey.get(key, 0) + 1
+            if perkey[key] <= 10:      # per key: a flood of one (known) class must not hide another key
                 ctx.fail(key, "%s: %s" % (inp, msg), stream=stream, case=inp, impl=ob, oracle=msg)
     ctx.stream(stream, len(ids), len(distinct), rule,
                [{"input": inputs[i], "observed": obs[i]} for i in ids[:2] + ids[-2:]], dist,
@@ -305,5 +321,8 @@ def run(ctx):
                "three pairs ab, bc, ac observed, compared with the model; transitivity of =~, ==, <, <=, >, >= and mixed chains evaluated on the implementation outputs",
                corpus=corpus_t)
     run_stream(ctx, "c18.impl", h, m, ctx.n(1500, 60000), "impl",
-               "triples mixing BigFloat (precisions 24/53/64/100/200, +-0, +-inf, NaN) with Int and Float: implementation-level implications only (no model)",
+               "triples mixing BigFloat (precisions 24/53/64/100/200, +-0, +-inf, NaN) with Int and Float: implementation-level implications only (no model); "
+               "second generation per triple: a finite BigFloat and values of EVERY numeric kind (Int, Float, Float64/32, Int8-64, UInt8-64, UInt, BigFloat of "
+               "another precision) projected from the BigFloat's value (small integers, 2^k-2..2^k+1 at the sized kinds' tops, the common bases; +-1 / +-1 ulp "
+               "perturbations), as pairs in BOTH orders (symmetry of == and =~, antisymmetry of <=>) and as triples b/k1/k2 and k1/b/k2 (transitivity)",
                corpus=corpus_i, with_model=False)
